@@ -386,7 +386,7 @@ fn run_hist(h: &Hist) -> HistResult {
 							format!(
 								"probe {id}: processes at device rate {in_force} Hz (dt = 1/{in_force}) but was last told {:?} Hz ({})",
 								last.map(|x| x.1),
-								if last.map(|x| x.0) == Some(false) { "by init on the caller's thread; the fan-out of the change did not reach the queued track" } else { "by on_change_sample_rate" }
+								if in_class { "by init on the caller's thread; the change fell between the track's load and its pick-up and its fan-out did not reach the queued track" } else if last.map(|x| x.0) == Some(false) { "by init; a later change did not reach it although no change raced with its add" } else { "by on_change_sample_rate" }
 							),
 							in_class,
 						));
@@ -414,6 +414,13 @@ fn emit_hist(s: &mut Session, kind: &str, h: &Hist) {
 		s.count("hist_with_stale_effect");
 	}
 	for (what, in_class) in r.fails {
+		if in_class {
+			// keep the summary small: the first 40 instances of the known class are recorded, all are counted
+			s.count("stale_probe_in_known_class");
+			if s.failures.iter().filter(|f| f.class.as_deref() == Some(STALE)).count() >= 40 {
+				continue;
+			}
+		}
 		s.fail(h.describe(), what, if in_class { Some(STALE) } else { None });
 	}
 }
@@ -603,6 +610,255 @@ fn gen_hist(rng: &mut Rng) -> Hist {
 	Hist { sr0, ibs, main, nids: next_id, items }
 }
 
+
+// ---------------------------------------------------------------------------------------------
+// Part B: real effects
+// ---------------------------------------------------------------------------------------------
+/// buffer length of a real Delay, read off the echo position of an impulse (wet only), after `init(rates[0])`
+/// and after each further `on_change_sample_rate(rates[i])`
+fn delay_lengths(t_ns: u64, rates: &[u32]) -> Vec<i128> {
+	const N: usize = 4096;
+	let mut e = DelayBuilder::new().delay_time(Duration::from_nanos(t_ns)).feedback(Decibels::IDENTITY).mix(Mix::WET).build().0;
+	let info = kira::info::MockInfoBuilder::new().build();
+	let mut out = vec![];
+	for (i, r) in rates.iter().enumerate() {
+		if i == 0 {
+			e.init(*r, N);
+		} else {
+			e.on_change_sample_rate(*r);
+		}
+		let mut buf = vec![Frame::ZERO; N];
+		buf[0] = Frame::new(1.0, 1.0);
+		e.process(&mut buf, 1.0 / *r as f64, &info);
+		out.push(buf.iter().position(|f| f.left != 0.0).map(|k| k as i128).unwrap_or(-1));
+	}
+	out
+}
+
+fn noise_sound(rate: u32, n: usize, rng: &mut Rng) -> StaticSoundData {
+	sound_from_frames(rate, (0..n).map(|_| Frame::new((rng.unit_f64() - 0.5) as f32, (rng.unit_f64() - 0.5) as f32)).collect())
+}
+
+#[derive(Clone, Copy, Debug, PartialEq)]
+enum FxKind {
+	Filter(FilterMode, f64),
+	Delay(u64),
+}
+#[derive(Clone, Copy, Debug, PartialEq)]
+enum Order {
+	/// track in the arena, then change
+	ArenaThenChange,
+	/// add; change; (first callback afterwards)  -- F14 order
+	QueuedDuringChange,
+	/// change, then add
+	ChangeThenAdd,
+}
+/// a sub-track with one real effect lives through a change r1 -> r2; afterwards a sound is played on it.
+/// The output must equal, bit for bit, that of a manager that ran at r2 from the start.
+fn effect_across_change(s: &mut Session, rng: &mut Rng, fx: FxKind, order: Order, r1: u32, r2: u32) {
+	let data = noise_sound(r2, 300, &mut rng.fork());
+	let build = |b: TrackBuilder| match fx {
+		FxKind::Filter(mode, cutoff) => b.with_effect(FilterBuilder::new().mode(mode).cutoff(cutoff).resonance(0.3)),
+		FxKind::Delay(t) => b.with_effect(DelayBuilder::new().delay_time(Duration::from_nanos(t)).feedback(Decibels(-6.0)).mix(Mix(0.5))),
+	};
+	let render = |changed: bool| -> Vec<u32> {
+		let mut m = crate::backend::simple_manager(if changed { r1 } else { r2 }, 32);
+		let mut tr = None;
+		if changed {
+			match order {
+				Order::ArenaThenChange => {
+					tr = Some(m.add_sub_track(build(TrackBuilder::new())).unwrap());
+					m.backend_mut().callback(50, 2);
+					m.backend_mut().set_sample_rate(r2);
+				}
+				Order::QueuedDuringChange => {
+					tr = Some(m.add_sub_track(build(TrackBuilder::new())).unwrap());
+					m.backend_mut().set_sample_rate(r2);
+				}
+				Order::ChangeThenAdd => {
+					m.backend_mut().callback(50, 2);
+					m.backend_mut().set_sample_rate(r2);
+				}
+			}
+		}
+		let mut tr = match tr {
+			Some(t) => t,
+			None => m.add_sub_track(build(TrackBuilder::new())).unwrap(),
+		};
+		m.backend_mut().callback(40, 2);
+		let _h = tr.play(data.clone()).unwrap();
+		let mut out = vec![];
+		for _ in 0..6 {
+			out.extend(m.backend_mut().callback(100, 2).iter().map(|x| x.to_bits()));
+		}
+		out
+	};
+	let a = render(true);
+	let b = render(false);
+	s.eval_only(&format!("effect_across_change_{}", match fx { FxKind::Filter(..) => "filter", FxKind::Delay(_) => "delay" }));
+	if a.iter().all(|x| f32::from_bits(*x) == 0.0) {
+		s.fail(format!("{fx:?} {order:?} {r1}->{r2}"), "scene is silent (harness problem)".into(), None);
+	}
+	if a != b {
+		let k = a.iter().zip(&b).position(|(x, y)| x != y).unwrap();
+		let desc = format!("sub-track with {fx:?}, order {order:?}, device rate {r1} -> {r2} Hz, then a sound is played on the track");
+		let what = format!(
+			"output differs from a manager that ran at {r2} Hz from the start (first at sample {k}: {:e} vs {:e}): the effect does not process with the rate in force",
+			f32::from_bits(a[k]),
+			f32::from_bits(b[k])
+		);
+		let known = order == Order::QueuedDuringChange && matches!(fx, FxKind::Delay(_));
+		s.fail(desc, what, if known { Some(STALE) } else { None });
+	}
+}
+
+/// filter_coeff_depends_on_ratio on the real Filter / EqFilter: (f, sr) and (2f, 2sr) have the same ratio and
+/// doubling is exact in binary floating point, so the outputs on the same samples must be equal bit for bit
+fn filter_ratio_check(s: &mut Session, rng: &mut Rng, sr: u32, f: f64) {
+	use kira::effect::eq_filter::{EqFilterBuilder, EqFilterKind};
+	let info = kira::info::MockInfoBuilder::new().build();
+	let input: Vec<Frame> = (0..256).map(|_| Frame::new((rng.unit_f64() - 0.5) as f32, (rng.unit_f64() - 0.5) as f32)).collect();
+	let mut builders: Vec<(String, Box<dyn Fn(f64) -> Box<dyn Effect>>)> = vec![];
+	for mode in [FilterMode::LowPass, FilterMode::BandPass, FilterMode::HighPass, FilterMode::Notch] {
+		builders.push((format!("Filter {mode:?}"), Box::new(move |c| FilterBuilder::new().mode(mode).cutoff(c).resonance(0.4).build().0)));
+	}
+	for kind in [EqFilterKind::Bell, EqFilterKind::LowShelf, EqFilterKind::HighShelf] {
+		builders.push((format!("EqFilter {kind:?}"), Box::new(move |c| EqFilterBuilder::new(kind, c, Decibels(6.0), 0.7).build().0)));
+	}
+	for (name, b) in &builders {
+		let run = |cut: f64, dt: f64| -> Vec<u32> {
+			let mut e = b(cut);
+			e.init(1, 256);
+			let mut buf = input.clone();
+			e.process(&mut buf, dt, &info);
+			buf.iter().flat_map(|x| [x.left.to_bits(), x.right.to_bits()]).collect()
+		};
+		let dt = 1.0 / sr as f64;
+		let a = run(f, dt);
+		let b2 = run(2.0 * f, dt / 2.0);
+		let c4 = run(f / 4.0, dt * 4.0);
+		s.eval_only("filter_same_ratio");
+		let lo = run(f * 0.5, dt);
+		if a != b2 || a != c4 {
+			s.fail(format!("{name} cutoff {f} Hz at {sr} Hz vs cutoff {} Hz at {} Hz / {} Hz at {} Hz", 2.0 * f, 2 * sr, f / 4.0, sr as f64 / 4.0), "same cutoff/rate ratio but different output: the coefficient does not depend on f/sr alone".into(), None);
+		}
+		if f / (sr as f64) < 0.4 && f / (sr as f64) > 0.001 && a == lo {
+			s.fail(format!("{name} at {sr} Hz"), format!("cutoff {f} Hz and {} Hz give identical output (harness not sensitive)", f * 0.5), None);
+		}
+	}
+}
+
+// ---------------------------------------------------------------------------------------------
+// Part C: the same scene at many device rates and across mid-stream changes, measured in seconds
+// ---------------------------------------------------------------------------------------------
+struct SceneResult {
+	/// seconds from the first to the last audible output frame of the index-coded sound
+	span: f64,
+	/// seconds at which the sound handle first reported Stopped (end of that callback)
+	stopped_at: f64,
+	/// (clock ticks + fraction as the handle shows them, seconds rendered up to the moment the clock last published)
+	clock: (f64, f64),
+	/// seconds at which the tweened DC sound reached its final value, final value
+	tween_done: f64,
+	total: f64,
+}
+/// segments: (device rate, number of callbacks, frames per callback)
+fn run_scene(segs: &[(u32, usize, usize)], ibs: usize, sound_rate: u32, n: usize, rho: f64, tps: f64, tween_s: f64) -> SceneResult {
+	// scene 1: index-coded sound + clock
+	let mut m = crate::backend::simple_manager(segs[0].0, ibs);
+	let mut clock = m.add_clock(ClockSpeed::TicksPerSecond(tps)).unwrap();
+	clock.start();
+	let data = indexed_sound(sound_rate, n).playback_rate(rho);
+	let h = m.play(data).unwrap();
+	let mut t = 0.0f64;
+	let mut first: Option<f64> = None;
+	let mut last = 0.0f64;
+	let mut stopped_at = f64::NAN;
+	let mut t_published = 0.0f64;
+	for (i, (sr, ncb, fpc)) in segs.iter().enumerate() {
+		if i > 0 {
+			m.backend_mut().set_sample_rate(*sr);
+		}
+		for _ in 0..*ncb {
+			// the clock publishes its time to the handle in on_start_processing, i.e. as of the start of this callback
+			t_published = t;
+			let out = m.backend_mut().callback(*fpc, 2);
+			for k in 0..*fpc {
+				if out[2 * k] != 0.0 {
+					if first.is_none() {
+						first = Some(t);
+					}
+					last = t + 1.0 / *sr as f64;
+				}
+				t += 1.0 / *sr as f64;
+			}
+			if stopped_at.is_nan() && h.state() == PlaybackState::Stopped {
+				stopped_at = t;
+			}
+		}
+	}
+	let ct = clock.time();
+	let clock_val = ct.ticks as f64 + ct.fraction;
+	let total = t;
+	drop(m);
+	// scene 2: DC sound whose volume is tweened from 0 dB to -12 dB
+	let mut m = crate::backend::simple_manager(segs[0].0, ibs);
+	let dc = sound_from_frames(sound_rate, vec![Frame::new(0.5, 0.5); (sound_rate as f64 * (total + 1.0)) as usize + 16]);
+	let mut h = m.play(dc).unwrap();
+	h.set_volume(Decibels(-12.0), Tween { start_time: StartTime::Immediate, duration: Duration::from_secs_f64(tween_s), easing: Easing::Linear });
+	let mut t = 0.0f64;
+	let mut samples: Vec<(f64, f32)> = vec![];
+	for (i, (sr, ncb, fpc)) in segs.iter().enumerate() {
+		if i > 0 {
+			m.backend_mut().set_sample_rate(*sr);
+		}
+		for _ in 0..*ncb {
+			let out = m.backend_mut().callback(*fpc, 2);
+			for k in 0..*fpc {
+				t += 1.0 / *sr as f64;
+				samples.push((t, out[2 * k]));
+			}
+		}
+	}
+	let fin = samples.last().unwrap().1;
+	// first time from which on the output stays at its final value
+	let mut done = f64::NAN;
+	for (tt, v) in samples.iter().rev() {
+		if *v != fin {
+			break;
+		}
+		done = *tt;
+	}
+	SceneResult { span: last - first.unwrap_or(0.0), stopped_at, clock: (clock_val, t_published), tween_done: done, total }
+}
+
+fn check_scene(s: &mut Session, kind: &str, segs: &[(u32, usize, usize)], ibs: usize, sound_rate: u32, n: usize, rho: f64, tps: f64, tween_s: f64) {
+	let r = run_scene(segs, ibs, sound_rate, n, rho, tps, tween_s);
+	s.eval_only(kind);
+	let desc = format!("scene: {n}-frame index-coded sound at {sound_rate} Hz, playback rate {rho}, clock {tps} ticks/s, volume tween {tween_s} s; device (rate, callbacks, frames per callback) = {segs:?}, internal buffer {ibs}");
+	let min_sr = segs.iter().map(|x| x.0).min().unwrap() as f64;
+	let max_cb = segs.iter().map(|x| x.2 as f64 / x.0 as f64).fold(0.0, f64::max);
+	let max_chunk = segs.iter().map(|x| ibs.min(x.2) as f64 / x.0 as f64).fold(0.0, f64::max);
+	let want = n as f64 / (sound_rate as f64 * rho);
+	let src = 1.0 / (sound_rate as f64 * rho);
+	// MONITOR duration: the audible span is N/(s*rho) seconds (the 4-point interpolator adds up to 3 source frames)
+	if (r.span - want).abs() > 4.0 * src + 2.0 / min_sr {
+		s.fail(desc.clone(), format!("sound audible for {:.6} s, N/(s*rho) = {:.6} s", r.span, want), None);
+	}
+	// MONITOR: Stopped is reported within one callback (+ interpolator tail) of N/(s*rho)
+	if !(r.stopped_at >= want - 1e-9 && r.stopped_at <= want + 5.0 * src + max_cb + 2.0 / min_sr) {
+		s.fail(desc.clone(), format!("sound reported Stopped at {:.6} s, N/(s*rho) = {:.6} s (callback {:.6} s)", r.stopped_at, want, max_cb), None);
+	}
+	// MONITOR clock: ticks after t seconds = tps * t to one frame
+	if (r.clock.0 - tps * r.clock.1).abs() > tps / min_sr + 1e-6 * tps * r.clock.1.max(1.0) {
+		s.fail(desc.clone(), format!("clock shows {:.6} ticks after {:.6} s at {tps} ticks/s (expected {:.6})", r.clock.0, r.clock.1, tps * r.clock.1), None);
+	}
+	// MONITOR tween: completes at its duration, to one internal chunk
+	if !(r.tween_done >= tween_s - 1e-9 && r.tween_done <= tween_s + max_chunk + 2.0 / min_sr) {
+		s.fail(desc.clone(), format!("volume tween of {tween_s} s reached its target at {:.6} s (internal chunk {:.6} s)", r.tween_done, max_chunk), None);
+	}
+}
+
 pub fn run(args: &Args) {
 	let mut rng = Rng::new(args.seed ^ 0xC16);
 	let mut s = Session::new(
@@ -622,5 +878,100 @@ pub fn run(args: &Args) {
 		let h = gen_hist(&mut rng);
 		emit_hist(&mut s, "hist_random", &h);
 	}
+	// ---- Part B: real Delay / Filter
+	let dn: u64 = (if args.thorough { 2000 } else { 250 }) * args.budget_mul;
+	for i in 0..dn {
+		let r0 = gen_rate(&mut rng, false);
+		let t_ns = match i % 4 {
+			0 => rng.below(1_000_000),                                   // below / around one frame
+			1 => (rng.below(200) as f64 * 1e9 / r0 as f64) as u64,       // a whole number of frames at r0 (truncation edge)
+			2 => ((rng.below(200) as f64 * 1e9 / r0 as f64) as u64 + rng.below(3)).saturating_sub(1),
+			_ => rng.below(20_000_000),
+		};
+		let mut rates = vec![r0];
+		for _ in 0..rng.below(3) {
+			rates.push(gen_rate(&mut rng, false));
+		}
+		if rates.iter().any(|r| t_ns as f64 * *r as f64 / 1e9 > 4000.0) {
+			continue;
+		}
+		let obs = delay_lengths(t_ns, &rates);
+		s.case("delay_length", format!("CDelay {} [{}]", t_ns, rates.iter().map(|r| r.to_string()).collect::<Vec<_>>().join("; ")), &obs, Some(format!("d{t_ns}/{rates:?}")));
+		// MONITOR delay_time_error: L/sr in (T - 1/sr, T], or one frame when T*sr < 1
+		for (l, r) in obs.iter().zip(&rates) {
+			let x = t_ns as f64 * *r as f64 / 1e9;
+			let ok = if x >= 1.0 { (*l as f64) <= x + 1e-9 && (*l as f64) > x - 1.0 - 1e-9 } else { *l == 1 };
+			if !ok {
+				s.fail(format!("Delay {t_ns} ns at {r} Hz (rates {rates:?})"), format!("echo after {l} frames, T*sr = {x}"), None);
+			}
+		}
+	}
+	for r in RATES.iter().chain([1000u32, 2000, 3000, 500, 1, 12345, 88200].iter()) {
+		s.case("dt", format!("CDt {}", r), &[obs64(dt_of_renderer(*r))], Some(format!("dt{r}")));
+	}
+	let fxs = [
+		FxKind::Filter(FilterMode::LowPass, 1000.0),
+		FxKind::Filter(FilterMode::HighPass, 3000.0),
+		FxKind::Filter(FilterMode::BandPass, 500.0),
+		FxKind::Filter(FilterMode::Notch, 10000.0),
+		FxKind::Delay(2_000_000),
+	];
+	let pairs: &[(u32, u32)] = if args.thorough { &[(44100, 48000), (48000, 44100), (8000, 192000), (96000, 11025), (22050, 44100)] } else { &[(44100, 48000), (96000, 11025)] };
+	for fx in fxs {
+		for order in [Order::ArenaThenChange, Order::QueuedDuringChange, Order::ChangeThenAdd] {
+			for (r1, r2) in pairs {
+				effect_across_change(&mut s, &mut rng, fx, order, *r1, *r2);
+			}
+		}
+	}
+	for sr in RATES {
+		for f in [100.0, 1000.0, 3210.5, 12000.0] {
+			filter_ratio_check(&mut s, &mut rng, sr, f);
+		}
+	}
+	// ---- Part C: scenes
+	let sound_rates = [8000u32, 22050, 44100, 48000];
+	let mut sc = 0u64;
+	for (i, sr) in RATES.iter().enumerate() {
+		for (j, srate) in sound_rates.iter().enumerate() {
+			if !args.thorough && (i + j) % 2 == 1 {
+				continue;
+			}
+			let rho = [1.0, 0.5, 2.0, 1.25][(i + j) % 4];
+			let n = (*srate as f64 * rho * 0.05) as usize; // 50 ms of audio
+			let fpc = [64usize, 100, 256, 37][(i * 3 + j) % 4];
+			let ncb = (0.12 * *sr as f64 / fpc as f64) as usize + 2;
+			check_scene(&mut s, "scene_single_rate", &[(*sr, ncb, fpc)], 32, *srate, n, rho, 200.0, 0.03);
+			sc += 1;
+		}
+	}
+	let nsc: u64 = (if args.thorough { 300 } else { 40 }) * args.budget_mul;
+	for _ in 0..nsc {
+		let nseg = 2 + rng.below(3) as usize;
+		let srate = *rng.pick(&sound_rates);
+		let rho = *rng.pick(&[1.0, 0.5, 2.0, 1.25, 0.75]);
+		let n = (srate as f64 * rho * 0.05) as usize;
+		let mut segs = vec![];
+		let mut total = 0.0;
+		for k in 0..nseg {
+			let sr = *rng.pick(&RATES);
+			let fpc = *rng.pick(&[32usize, 64, 100, 37, 256]);
+			// each segment lasts 5..25 ms, the last one long enough for everything to finish
+			let dur = if k + 1 == nseg { (0.13f64 - total).max(0.03) } else { 0.005 + rng.unit_f64() * 0.02 };
+			let ncb = (dur * sr as f64 / fpc as f64) as usize + 1;
+			total += (ncb * fpc) as f64 / sr as f64;
+			segs.push((sr, ncb, fpc));
+		}
+		check_scene(&mut s, "scene_rate_changes", &segs, 32, srate, n, rho, 200.0, 0.03);
+		sc += 1;
+	}
+	s.notes.push(format!("{sc} scenes rendered at device rates {RATES:?} and across 1-3 mid-stream changes; durations, clock time and tween completion measured in seconds"));
+	s.notes.push("racy histories (change between sample_rate.load() and enqueue) are driven from inside the probe's init, which the add path calls exactly there: no hook in kira".to_string());
 	s.finish();
+}
+fn dt_of_renderer(sr: u32) -> f64 {
+	// the dt a probe sees on the main track of a manager running at `sr`
+	let h = Hist { sr0: sr, ibs: 4, main: vec![EShape::Probe(0)], nids: 1, items: vec![Item::A(AOp::Callback(1))] };
+	let r = run_hist(&h);
+	f64::from_bits(r.obs[2] as u64)
 }
